@@ -228,6 +228,18 @@ def run(p, report, tier):
                 arr = [x for x in sides if (names_in(x) & ylike) and "missing_label" not in ast.unparse(x)]
                 if sent and arr and not f.qual.startswith("ExtLabelEncoder"):
                     bad = n
+            # a NaN-aware reduction over the raw label array is a NaN test in disguise: with another sentinel
+            # the sentinel values enter the statistic
+            if bad is None and isinstance(n, ast.Call) and (c01.callname(n) or "").split(".")[-1] in (
+                    "nanvar", "nanmean", "nansum", "nanstd", "nanmax", "nanmin", "nanmedian", "nanprod") and n.args:
+                a0 = n.args[0]
+                b = a0.id if isinstance(a0, ast.Name) else (base_name(a0) if isinstance(a0, ast.Subscript) else None)
+                if b in ypars:
+                    # selecting with the labeled mask first makes the reduction independent of the sentinel
+                    masks = {t.id for d in ast.walk(f.node) if isinstance(d, ast.Assign) and isinstance(d.value, ast.Call)
+                             and c01.callname(d.value) in ("is_labeled", "labeled_indices") for t in d.targets if isinstance(t, ast.Name)}
+                    if not (isinstance(a0, ast.Subscript) and (names_in(a0.slice) & masks)):
+                        bad = n
             if bad is not None:
                 n94 += 1
                 exc = NAN_TEST_OK.get(f.name)
@@ -349,6 +361,45 @@ def run(p, report, tier):
                 "through the label encoder (or classes_[.]) on every path before returning it, so predictions are "
                 "the re-encoded originals for any class naming (shared with C11 R11.1)", floor=3)
     c11.check_index_decoded(p, report, c11.classifier_classes(p), "R9.6")
+    # ---------------- R9.8 classes and sentinel of an internal model are overridden together
+    report.rule("R9.8", "a model that a strategy re-targets to its own label encoding (override of `classes` on an object "
+                "other than self, by attribute store or set_params) gets the matching `missing_label` in the same "
+                "function: keeping the user's sentinel while training on internal targets collides as soon as that "
+                "sentinel is one of the internal class values (or of another type)", floor=2)
+    for f in p.all_functions():
+        if "/tests/" in f.file or f.file.startswith("skactiveml/visualization"):
+            continue
+        over = {}
+        for n in ast.walk(f.node):
+            if isinstance(n, ast.Assign):
+                for t in n.targets:
+                    if isinstance(t, ast.Attribute) and t.attr in ("classes", "missing_label") and not (
+                            isinstance(t.value, ast.Name) and t.value.id == "self"):
+                        over.setdefault(ast.unparse(t.value), {})[t.attr] = n
+            if isinstance(n, ast.Call) and isinstance(n.func, ast.Attribute) and n.func.attr == "set_params":
+                recv = n.func.value
+                # clone(x).set_params(...) re-targets the clone bound to the assignment's target
+                key = ast.unparse(recv)
+                if isinstance(recv, ast.Name) and recv.id == "self":
+                    continue
+                for k in n.keywords:
+                    if k.arg in ("classes", "missing_label"):
+                        over.setdefault(key, {})[k.arg] = n
+        # `x = clone(d).set_params(classes=..)` and later `x.missing_label = ..` describe the same object
+        for n in ast.walk(f.node):
+            if isinstance(n, ast.Assign) and len(n.targets) == 1 and isinstance(n.targets[0], ast.Name) \
+                    and isinstance(n.value, ast.Call) and isinstance(n.value.func, ast.Attribute) \
+                    and n.value.func.attr == "set_params":
+                src = ast.unparse(n.value.func.value)
+                if src in over:
+                    over.setdefault(n.targets[0].id, {}).update(over.pop(src))
+        for recv, d in sorted(over.items()):
+            if "classes" not in d:
+                continue
+            ok = "missing_label" in d
+            report.add("R9.8", f.qual, f"`{recv}` re-targeted: classes and missing_label overridden together", f"{f.file}:{d['classes'].lineno}",
+                       ok, detail="both overridden" if ok else
+                       f"`{norm_stmt(d['classes'], 60)}` overrides the classes but the model keeps the user's missing_label")
     report.assumptions += ["equality of outputs under order-preserving renaming is not decided",
                            "calls on model predictions and pure validators are outside R9.1"]
 
